@@ -132,7 +132,9 @@ func runC06(c *Ctx) {
 				inputSet = &s
 			}
 		}
-		if inputSet == nil {
+		if inputSet == nil && c.dupInputSetInHelper(cbs) {
+			// decided inside the helper (see dupInputSetInHelper)
+		} else if inputSet == nil {
 			c.R.Check("G1-dupinput", "CheckBlockSanity|input set", false, c.pos(cbs.Pos()), "no insert-or-reject set over transaction inputs found")
 		} else {
 			isMap := func(v ssa.Value) bool { return v == ssa.Value(inputSet.mk) }
@@ -518,4 +520,72 @@ func runC07(c *Ctx) {
 	}
 	// header binding of PoW (shared with C09): AuxPow.Check and CheckProofOfWork are checked
 	c.GuardSuccess("G1-sanity", "CheckBlockSanity|numTx != 0", cbs, "len(block.Transactions) == 0", condCmp(isLenOf(func(v ssa.Value) bool { return ssau.IsFieldOf(ssau.Unwrap(v), "Block", "Transactions") }), isConstInt(0), token.EQL, false), G1Opt{})
+}
+
+// dupInputSetInHelper handles the variant where the per-block duplicate-input set is allocated in CheckBlockSanity
+// and the insert-or-reject loop over a transaction's inputs lives in a helper that receives the set. It emits the
+// same G1-dupinput obligations and reports whether such a helper was found.
+func (c *Ctx) dupInputSetInHelper(cbs *ssa.Function) bool {
+	for _, b := range cbs.Blocks {
+		for _, in := range b.Instrs {
+			cl, ok := in.(*ssa.Call)
+			if !ok {
+				continue
+			}
+			h := cl.Call.StaticCallee()
+			if h == nil || h.Pkg != cbs.Pkg || len(h.Blocks) == 0 {
+				continue
+			}
+			// an argument that is a map allocated in cbs
+			for ai, a := range cl.Call.Args {
+				mk, ok := ssau.Unwrap(a).(*ssa.MakeMap)
+				if !ok || mk.Parent() != cbs || ai >= len(h.Params) {
+					continue
+				}
+				prm := h.Params[ai]
+				var lookup *ssa.Lookup
+				var update *ssa.MapUpdate
+				if refs := prm.Referrers(); refs != nil {
+					for _, r := range *refs {
+						switch y := r.(type) {
+						case *ssa.Lookup:
+							if y.CommaOk {
+								lookup = y
+							}
+						case *ssa.MapUpdate:
+							update = y
+						}
+					}
+				}
+				if lookup == nil || update == nil {
+					continue
+				}
+				found := false
+				ssau.WithParamSubst(cl, func() {
+					if !ssau.DependsOn(lookup.Index, func(x ssa.Value) bool { return methodCallNamed(x, "ReferKey") || methodCallNamed(x, "Inputs") }) {
+						return
+					}
+					found = true
+					isMap := func(v ssa.Value) bool { return v == ssa.Value(prm) }
+					c.iterGuard("G1-dupinput", "CheckBlockSanity|per-input absent-or-reject", h, "existingTxInputs lookup == absent", lookupAbsent(isMap), 0)
+					keyOK := func(k ssa.Value) bool { return methodCallNamed(ssau.Unwrap(k), "ReferKey") }
+					c.R.Check("G1-dupinput", "CheckBlockSanity|lookup key = ReferKey()", keyOK(lookup.Index), c.posOf(lookup), "the duplicate set must be keyed by input.ReferKey() (outpoint), not by a value that includes the sequence")
+					c.R.Check("G1-dupinput", "CheckBlockSanity|insert key = lookup key", update.Key == lookup.Index || (keyOK(update.Key) && sameCallRecv(update.Key, lookup.Index)), c.posOf(update), "the inserted key must be the looked-up key")
+					c.R.Check("G1-dupinput", "CheckBlockSanity|set spans the block", len(loopHeaders(mk.Block())) == 0, c.posOf(mk), "the duplicate set must be allocated once per block, outside the loops")
+					hsIn := loopHeaders(lookup.Block())
+					hsOut := loopHeaders(cl.Block())
+					okIn := len(hsIn) >= 1 && loopRangesOver(hsIn[0], func(v ssa.Value) bool { return methodCallNamed(ssau.Unwrap(v), "Inputs") }) &&
+						len(hsOut) >= 1 && loopRangesOver(hsOut[0], func(v ssa.Value) bool { return ssau.IsFieldOf(ssau.Unwrap(v), "Block", "Transactions") })
+					c.R.Check("G1-dupinput", "CheckBlockSanity|loop domains", okIn, c.posOf(lookup), "inner loop ranges over txn.Inputs(), outer loop over block.Transactions")
+				})
+				if found {
+					// every transaction's iteration passes the helper and its verdict is checked
+					hp := func(cm *ssa.CallCommon) bool { return cm.StaticCallee() == h }
+					c.iterMustPass("G1-dupinput", "CheckBlockSanity|helper "+h.Name()+" checked", cbs, h.Name(), hp, true)
+					return true
+				}
+			}
+		}
+	}
+	return false
 }
